@@ -10,6 +10,7 @@
 #include "lib_stable/reed-solomon_gf_2_m/galois_field_codes_utils/algebra_2_4.h"
 #include "lib_stable/reed-solomon_gf_2_m/galois_field_codes_utils/algebra_2_8.h"
 #include "lib_stable/ldpc_staircase/of_codec_profile.h"
+#include "lib_common/linear_binary_codes_utils/binary_matrix/of_hamming_weight.c"
 
 #define DUMP1(name, T) do { size_t n = sizeof(name)/sizeof(name[0]); printf("%s 1 %zu", #name, n); \
 	for (size_t i = 0; i < n; i++) printf(" %lld", (long long)(T)name[i]); printf("\n"); } while (0)
@@ -26,6 +27,7 @@ int main(void)
 	DUMP2(of_gf_2_8_mul_table);
 	DUMP1(of_rs_gf_exp, long long); DUMP1(of_rs_gf_log, long long); DUMP1(of_rs_inverse, long long);
 	DUMP2(of_gf_mul_table);
+	DUMP1(of_hw8table, long long);
 	printf("def RS_GF_BITS %d\n", GF_BITS);
 	printf("def RS_GF_SIZE %d\n", GF_SIZE);
 	printf("def RS_UNROLL %d\n", UNROLL);
